@@ -56,8 +56,8 @@ RULE = ("One Hypothesis strategy mixes three labelled targets. (A, ~93 %) an "
         "Non-trivial: object built with >= 1 optional argument and compared on "
         "non-degenerate data, or a history that executed >= 1 restore; distinct "
         "by SHA-1 of the case.")
-NT_FLOOR = 0.6
-BUDGET = {"quick": 300, "thorough": 4000}
+NT_FLOOR = 0.5
+BUDGET = {"quick": 300, "thorough": 2500}
 TECHNIQUE = ("property-based testing (Hypothesis): round-trip / metamorphic "
              "comparison of original and rebuilt objects over generated "
              "constructor arguments, and generated save/restore histories on "
@@ -1718,7 +1718,8 @@ def aggregation_inputs(spec, rs):
 
 
 REG["Aggregation"] = Entry("Aggregation", "layer", aggregation_spec,
-                           make_aggregation, 1.0, inputs=aggregation_inputs)
+                           make_aggregation, 1.0, inputs=aggregation_inputs,
+                           project=True)
 
 
 # ---------------------------------------------------------------- configs
@@ -2184,7 +2185,14 @@ def run_object(case, out):
     out.violate("from_config returned a %s" % type(rebuilt).__name__,
                 kind="from_config-type", **sig)
     return
-  d = deep_diff(cfg_norm, norm(rebuilt.get_config()))
+  try:
+    cfg2 = rebuilt.get_config()
+  except Exception as e:  # pylint: disable=broad-except
+    out.violate("get_config() of the rebuilt %s fails: %s: %s" % (
+        name, type(e).__name__, str(e)[:200]), kind="rebuilt-get_config",
+                exc=type(e).__name__, **sig)
+    return
+  d = deep_diff(cfg_norm, norm(cfg2))
   if d:
     out.violate("config of rebuilt %s differs at %s" % (name, d),
                 kind="config", key=d.split("/")[1].split("(")[0], **sig)
@@ -2196,7 +2204,7 @@ def run_object(case, out):
     ab = entry.extra.get("after_build")
     compare_layers(obj, rebuilt, entry.extra["inputs"](spec, rs), case, out,
                    sig, after_build=ab(out, sig) if ab else None,
-                   project=kind == "model")
+                   project=kind == "model" or entry.extra.get("project"))
   elif kind == "modelcfg":
     seed = spec["desc"]["seed"]
     ma = build_premade(obj, seed, spec["name"])
